@@ -48,6 +48,7 @@ type Obs struct {
 	Notes      []string `json:"notes,omitempty"`
 	Key        string   `json:"key,omitempty"` // identity of the case for distinct counting (optional)
 	Data       []string `json:"data,omitempty"` // payload for the orchestrator (e.g. recorded trace lines)
+	Restart    bool     `json:"restart,omitempty"` // the worker must be replaced after this case
 }
 
 type Handler func(c json.RawMessage) *Obs
@@ -250,6 +251,10 @@ func (p *Pool) Run(cases <-chan []byte, sink func(c []byte, o *Obs)) {
 						obs = &Obs{}
 						if err := json.Unmarshal(r.line, obs); err != nil {
 							infraFail("bad observation from worker: %v: %s", err, trunc(string(r.line), 300))
+						}
+						if obs.Restart { // the worker left a runaway goroutine behind
+							w.kill()
+							w = nil
 						}
 					}
 				case <-time.After(timeout):
